@@ -55,15 +55,18 @@ def e3_plan(ctx):
             plan.append(("H12", kind, "line", 2, 8))
             plan.append(("H12", kind, "opcode", 1, 2))
         else:
-            for h in ("H1", "H2", "H3", "H4", "H6", "H7", "H8", "H9"):
+            for h in ("H1", "H2", "H3", "H6", "H8", "H9"):
                 plan.append((h, kind, "line", 1, 1))
+            plan.append(("H4", kind, "line", 1, 4))  # H7 (predictors on games of different shapes) runs in the thorough tier; H13 and H15 cover the predictors here
             if kind in spaces.TM:  # b <= 2 with both preemptions inside the shared helper module (v, w, vt, wt, phi: only TM goes there)
                 plan.append(("H8", kind, "line-helper", 2, 16))
             if kind in ("PL", "TMP"):  # opcode granularity (sub-line interleavings) on two classes; all five in the thorough tier
                 plan.append(("H1", kind, "opcode", 1, 4))
             plan.append(("H5", kind, "line", 1, 6))
-            for h in ("H10", "H11", "H13", "H14", "H15"):
+            for h in ("H10", "H11"):
                 plan.append((h, kind, "line", 1, 2))
+            for h in ("H13", "H14", "H15"):
+                plan.append((h, kind, "line", 1, 6))
             if kind in spaces.TM:  # under cache pressure (300 filler calls > a 256-entry memo): the helpers only TM calls
                 plan.append(("H14P300", kind, "line", 1, 8))
             plan.append(("H12", kind, "line", 1, 1))
